@@ -54,6 +54,7 @@ def check_c08(tier):
                           uttl=2, clear=2, obs=1))
     execs = [gen_execution(rng, KINDS[i % len(KINDS)], prof) for i in range(n)]
     execs += [big_cfg_execution(rng, vlib.CACHE_KINDS[i % len(vlib.CACHE_KINDS)]) for i in range(nbig)]
+    execs += vlib.scale_batch(rng, KINDS, tier)       # big capacities, hot keys, mass expiry, long ranges
     infra = None
     viol = []
 
